@@ -7,6 +7,7 @@ import KlogV.Model.Canon
 import KlogV.Gen.GoSrc
 import KlogV.Gen.GoTxt
 import KlogV.Gen.GoPar
+import KlogV.Gen.GoCal
 open KlogV
 
 /-! ### `gs.*`: the same questions answered by the TRANSLATED Go source (KlogV/Gen/GoSrc.lean); the harness compares the
@@ -73,6 +74,16 @@ def handleGs (args : List String) : Option String :=
       | .ok cs => "ok " ++ commaSep (cs.map (fun c => hexOrDash (hexOfBytes c)))
       | .error (.err m) => "err " ++ m
       | .error .panic => "panic")
+  | "gs.date" :: h :: groups =>
+    some (gRes (fun d => "ok " ++ gsStr d.ToString) (GoCal.NewDateFromString (fun _ => gsGroups groups) (decodeGo (bytesOfHex h))))
+  | ["gs.cal", y, m, d] =>
+    -- weekday, quarter, ISO week and the four periods of a date, by the translated calendar code
+    let x : GoCal.date := ⟨y.toInt!, m.toInt!, d.toInt!, ⟨true⟩⟩
+    let per (p : Go.G GoCal.periodData) : String := match p with
+      | .ok q => gsStr q.since.ToString ++ ".." ++ gsStr q.until_.ToString
+      | .error (.err _) => "err" | .error .panic => "panic"
+    some (s!"wd={gsInt x.Weekday} q={gsInt x.Quarter} wk={match x.WeekNumber with | .ok (a, b) => s!"{a}-{b}" | _ => "!"} " ++
+      s!"week={per (GoCal.Week.Period ⟨x⟩)} month={per (GoCal.Month.Period ⟨x⟩)} quarter={per (GoCal.Quarter.Period ⟨x⟩)} year={per (GoCal.Year.Period ⟨x⟩)}")
   | ["gs.translated"] => some (" ".intercalate GoSrc.translated)
   | _ => none
 
